@@ -124,7 +124,8 @@ class CompoundQuery(qcore.Query):
         for s in self.subqueries:
             s = s.normalize()
             if isinstance(s, self.__class__):
-                subqueries += [ss.with_boost(ss.boost * s.boost) for ss in s]
+                subqueries += [ss.with_boost(getattr(ss, "boost", 1.0)
+                                             * s.boost) for ss in s]
             else:
                 subqueries.append(s)
 
